@@ -402,6 +402,7 @@ func (pool *hostConnPool) Close() {
 	pool.conns = nil
 
 	pool.mu.Unlock()
+	verifPoint("pool.close.unlocked")
 
 	// close the connections
 	for _, conn := range conns {
@@ -430,6 +431,7 @@ func (pool *hostConnPool) fill() {
 
 	// switch from read to write lock
 	pool.mu.RUnlock()
+	verifPoint("fill.upgrade")
 	pool.mu.Lock()
 
 	// double check everything since the lock was released
@@ -447,6 +449,7 @@ func (pool *hostConnPool) fill() {
 
 	// allow others to access the pool while filling
 	pool.mu.Unlock()
+	verifPoint("fill.filling")
 	// only this goroutine should make calls to fill/empty the pool at this
 	// point until after this routine or its subordinates calls
 	// fillingStopped
@@ -594,6 +597,7 @@ func (pool *hostConnPool) connect() (err error) {
 	}
 
 	// add the Conn to the pool
+	verifPoint("pool.connect.add")
 	pool.mu.Lock()
 	defer pool.mu.Unlock()
 
@@ -613,6 +617,7 @@ func (pool *hostConnPool) HandleError(conn *Conn, err error, closed bool) {
 		// still an open connection, so continue using it
 		return
 	}
+	verifPoint("pool.handleError")
 
 	// TODO: track the number of errors per host and detect when a host is dead,
 	// then also have something which can detect when a host comes back.
